@@ -175,6 +175,17 @@ fn judge(t: i32, word: &[u8], route: &str, out: &Outcome, read: &[(&str, Pairs)]
             case,
             detail(format!("shp records {}, shx entries {}, dbf header rows {}, dbf rows physically present {:?}; calls that returned Ok: {}", c.shp_records, c.shx_entries, c.dbf_header_rows, c.dbf_physical_rows, n)),
         );
+        // ... as a whole. What was accepted BEFORE the first call whose row was refused must still be
+        // there, pair by pair: the refused call may leave its own debris, it may not take them along.
+        if let Some(first_bad) = word.iter().zip(&out.results).position(|(&l, &ok)| !ok && (l == MISSING_FIELD || l == WRONG_TYPE)) {
+            let before: Vec<(Option<usize>, Option<usize>)> = accepted.iter().filter(|&&i| i < first_bad).map(|&i| (Some(i), Some(i))).collect();
+            if let Some((_, Ok(p))) = read.iter().find(|(n, _)| *n == "pairs up to the first error") {
+                rep.count("prefixes_before_a_refused_row_compared", 1);
+                if p.len() < before.len() || p[..before.len()] != before[..] {
+                    rep.violation("pairing:pairs-accepted-before-a-refused-row-are-lost", case, detail(format!("{} pairs were accepted before call {} was refused; the reader yields {:?}", before.len(), first_bad, p)));
+                }
+            }
+        }
         return; // pairing is meaningless when the files disagree on the number of entries
     }
     if c.shp_records != n {
@@ -193,6 +204,7 @@ fn judge(t: i32, word: &[u8], route: &str, out: &Outcome, read: &[(&str, Pairs)]
             "iter_as.skip(2)" => want_all.iter().skip(2).cloned().collect(),
             "iter.last()" => want_all.iter().last().cloned().into_iter().collect(),
             "iter.count()" => vec![(None, None); want_all.len()],
+            "pairs up to the first error" => want_all.clone(),
             _ => want_all.clone(),
         };
         // a reader used twice may hand out the whole file or what was left: C08 only demands that
@@ -216,14 +228,24 @@ fn judge(t: i32, word: &[u8], route: &str, out: &Outcome, read: &[(&str, Pairs)]
 
 /// The consuming bulk route: all pairs of an all-success history in one call.
 fn write_bulk<W: std::io::Write + std::io::Seek>(w: Writer<W>, n: usize, t: i32, seed: u64) -> Vec<bool> {
+    write_bulk_after(w, n, 0, t, seed)
+}
+
+/// The first `single` pairs through write_shape_and_record, the rest in one consuming bulk call.
+fn write_bulk_after<W: std::io::Write + std::io::Seek>(mut w: Writer<W>, n: usize, single: usize, t: i32, seed: u64) -> Vec<bool> {
     let shapes: Vec<Shape> = (0..n).map(|call| tagged_shape(t, call, &mut Rng::derive(seed, &[tag("c08-shape"), t as u64, call as u64]))).collect();
     let rows: Vec<Record> = (0..n).map(good_row).collect();
+    let mut results = vec![];
+    for call in 0..single.min(n) {
+        results.push(with_concrete!(&shapes[call], x => w.write_shape_and_record(x, &rows[call])).is_ok());
+    }
     let ok = for_type!(t, T => {
         use std::convert::TryFrom;
-        let typed: Vec<T> = shapes.iter().map(|s| T::try_from(crate::shapes::clone_shape(s)).ok().expect("harness: type table")).collect();
-        w.write_shapes_and_records(typed.iter().zip(rows.iter())).is_ok()
+        let typed: Vec<T> = shapes[single.min(n)..].iter().map(|s| T::try_from(crate::shapes::clone_shape(s)).ok().expect("harness: type table")).collect();
+        w.write_shapes_and_records(typed.iter().zip(rows[single.min(n)..].iter())).is_ok()
     });
-    vec![ok; n]
+    results.extend(std::iter::repeat(ok).take(n - single.min(n)));
+    results
 }
 
 fn run_cursor(t: i32, other: i32, word: &[u8], seed: u64, case: &str, rep: &mut Report) {
@@ -236,7 +258,8 @@ fn run_cursor(t: i32, other: i32, word: &[u8], seed: u64, case: &str, rep: &mut 
     let res = panicmon::catch(|| {
         let w = Writer::new(ShapeWriter::with_shx(a.clone(), b.clone()), table_builder().build_with_dest(c.clone()));
         if bulk {
-            write_bulk(w, word.len(), t, seed)
+            // every fourth bulk history: the first pairs one by one, the rest in the bulk call
+            write_bulk_after(w, word.len(), if word.len() % 8 == 4 { word.len() / 2 } else { 0 }, t, seed)
         } else {
             write_history(w, word, t, other, seed)
         }
@@ -283,6 +306,22 @@ fn run_cursor(t: i32, other: i32, word: &[u8], seed: u64, case: &str, rep: &mut 
         };
         let r11 = pairs_of(mk().and_then(|r| seek_twice(r, 1)));
         let r12 = pairs_of(mk().and_then(|r| seek_twice(r, 0)));
+        // the pairs up to the first error, whatever comes after them
+        let r_prefix = pairs_of(mk().map(|mut r| {
+            let mut v = vec![];
+            for x in r.iter_shapes_and_records() {
+                match x {
+                    Ok(p) => v.push(p),
+                    Err(_) => break,
+                }
+                if v.len() > 200_000 {
+                    break;
+                }
+            }
+            v
+        }));
+        let r13 = pairs_of(mk().and_then(|r| seek_twice(r, 2)));
+        let r14 = pairs_of(mk().and_then(|r| seek_twice(r, 5)));
         vec![
             ("Reader::read", r1),
             ("Reader::iter_shapes_and_records", r2),
@@ -298,6 +337,9 @@ fn run_cursor(t: i32, other: i32, word: &[u8], seed: u64, case: &str, rep: &mut 
             ("one pair iterated, then read()", r10),
             ("seek(1), one pair, seek(1), then read()", r11),
             ("seek(0), one pair, seek(0), then read()", r12),
+            ("seek(2), one pair, seek(2), then read()", r13),
+            ("seek(5), one pair, seek(5), then read()", r14),
+            ("pairs up to the first error", r_prefix),
         ]
     });
     match read {
@@ -447,7 +489,7 @@ pub fn run(ctx: &Ctx) -> Report {
             if word.len() > 1000 && !matches!(t, 1 | 23) {
                 continue; // the large histories run for two types
             }
-            if !cfg!(miri) && (wi % ctx.pick(13, 5) == 1 || word.len() > 1000) {
+            if !cfg!(miri) && (wi % ctx.pick(13, 5) == 1 || word.len() > 1000 || word.is_empty()) {
                 let case = format!("c08:t{}:w{}:path", t, wi);
                 if ctx.want(&case) {
                     rep.eval();
